@@ -63,7 +63,14 @@ static void fp_prime_set(const bn_t p) {
 		fp_new(r);
 
 		bn_copy(&(ctx->prime), p);
-		bn_sub_dig(&(ctx->over3), p, 1);
+		/* Compute -1/3 mod p, which is (p - 1)/3 or (2p - 1)/3. */
+		bn_mod_dig(&rem, p, 3);
+		if (rem == 2) {
+			bn_dbl(&(ctx->over3), p);
+			bn_sub_dig(&(ctx->over3), &(ctx->over3), 1);
+		} else {
+			bn_sub_dig(&(ctx->over3), p, 1);
+		}
 		bn_div_dig(&(ctx->over3), &(ctx->over3), 3);
 
 #if FP_RDC == MONTY || !defined(STRIP)
